@@ -134,6 +134,73 @@ func main() {
 		o.Set("perc.commitNoLockRejectsRollback", anchor, fmt.Sprint(rejects), found, "false")
 	}
 
+	{
+		// prewriteMutation: a key locked by ANOTHER transaction is answered Locked, nothing else.
+		// Expected shape: `if lock != nil && lock.Ts != req.StartVersion { return keyErrorLocked(key, lock) }`.
+		const anchor = "percolator/txn.go:prewriteMutation"
+		pm := pf.Func("prewriteMutation")
+		found, val := false, ""
+		if pm != nil {
+			ast.Inspect(pm.Body, func(n ast.Node) bool {
+				is, ok := n.(*ast.IfStmt)
+				if !ok || pf.Src(is.Cond) != "lock != nil && lock.Ts != req.StartVersion" {
+					return true
+				}
+				found = true
+				switch {
+				case len(is.Body.List) == 1 && pf.Src(is.Body.List[0]) == "return keyErrorLocked(key, lock)" && is.Else == nil:
+					val = "locked"
+				case pf.HasCall(is.Body, "rollbackKey"):
+					val = "rollsBackExpired"
+				default:
+					found = false
+				}
+				return false
+			})
+		}
+		o.Set("perc.prewriteForeignLock", anchor, val, found, "locked")
+	}
+	{
+		// rollbackKey removes the lock only if it belongs to the transaction being rolled back.
+		// Expected shape: the `db.DeleteVersionedEntry(kv.CFLock, …)` call sits inside an `if` whose
+		// condition contains `lock.Ts == startTs` (true) or directly in the function body (false).
+		const anchor = "percolator/txn.go:rollbackKey"
+		rk := pf.Func("rollbackKey")
+		found, guarded := false, false
+		if rk != nil {
+			var walk func(n ast.Node, g bool)
+			walk = func(n ast.Node, g bool) {
+				ast.Inspect(n, func(x ast.Node) bool {
+					if is, ok := x.(*ast.IfStmt); ok && x != n {
+						gg := g
+						for _, c := range pf.Comparisons(is.Cond) {
+							if c.X == "lock.Ts" && c.Y == "startTs" && c.Op == "eq" {
+								gg = true
+							}
+						}
+						if is.Init != nil {
+							walk(is.Init, g)
+						}
+						walk(is.Body, gg)
+						if is.Else != nil {
+							walk(is.Else, g)
+						}
+						return false
+					}
+					if ce, ok := x.(*ast.CallExpr); ok && pf.Src(ce.Fun) == "db.DeleteVersionedEntry" && len(ce.Args) > 0 && pf.Src(ce.Args[0]) == "kv.CFLock" {
+						found = true
+						if g {
+							guarded = true
+						}
+					}
+					return true
+				})
+			}
+			walk(rk.Body, false)
+		}
+		o.Set("perc.rollbackChecksOwner", anchor, fmt.Sprint(guarded), found, "true")
+	}
+
 	// ---------------------------------------------------------------- percolator/reader.go (read rule used by the C28 model)
 	{
 		const anchor = "percolator/reader.go:getWriteForRead"
@@ -228,6 +295,30 @@ func main() {
 		o.Set("redis.detectConflicts", anchor, val, ok, "false")
 	}
 	{
+		// Txn.Get: addReadKey before the LSM lookup, so every return path after the lookup (value,
+		// miss, delete marker, expired version) has recorded the key; addReadKey appends the
+		// fingerprint.  (same rule and name as the mvcc engine's `txn.trackGet`)
+		tx := o.Load("txn.go")
+		fd := tx.Func("Txn.Get")
+		ark := tx.Func("Txn.addReadKey")
+		switch {
+		case fd == nil || ark == nil || tx.CallIndex(fd.Body, "txn.db.loadBorrowedEntry") < 0:
+			o.Set("txn.trackGet", "txn.go:Txn.Get", "", false, "true")
+		case !tx.HasStmt(ark.Body, "txn.reads = append(txn.reads, fp)") || !tx.HasStmt(ark.Body, "fp := kv.MemHash(key)"):
+			o.Set("txn.trackGet", "txn.go:Txn.addReadKey", "", false, "true")
+		default:
+			i, j := tx.CallIndex(fd.Body, "txn.addReadKey"), tx.CallIndex(fd.Body, "txn.db.loadBorrowedEntry")
+			switch {
+			case i < 0:
+				o.Set("txn.trackGet", "txn.go:Txn.Get", "false", true, "")
+			case i < j:
+				o.Set("txn.trackGet", "txn.go:Txn.Get", "true", true, "")
+			default:
+				o.Set("txn.trackGet", "txn.go:Txn.Get", "", false, "true") // recorded after the lookup: per-path analysis not attempted
+			}
+		}
+	}
+	{
 		const anchor = "cmd/nokv-redis/backend_raft.go:IncrBy/Set/mutate"
 		rf := o.Load("cmd/nokv-redis/backend_raft.go")
 		inc, set, mut := rf.Func("raftBackend.IncrBy"), rf.Func("raftBackend.Set"), rf.Func("raftBackend.mutate")
@@ -262,10 +353,10 @@ def clientCfg : ClientCfg :=
     perc := { commitNoLockRejectsRollback := %s, readSkipsRollback := %s } }
 
 def redisCfg : RedisCfg :=
-  { detectConflicts := %s, raftConflictFromReadTs := %s }
+  { detectConflicts := %s, raftConflictFromReadTs := %s, trackGet := %s }
 
 end NoKV.Generated.Client
 `, f["client.commitOrder"], f["client.primaryCommitErrStops"], f["perc.commitNoLockRejectsRollback"], f["perc.getSkipsRollback"],
-		f["redis.detectConflicts"], f["redis.raftConflictFromReadTs"])
+		f["redis.detectConflicts"], f["redis.raftConflictFromReadTs"], f["txn.trackGet"])
 	o.Write(*jsonOut, *leanOut, lean)
 }
